@@ -245,8 +245,9 @@ class StateMatrix:
             value = xp.asarray(other.states)
         elif xp.isscalar(other):
             value = other
-        else:  # array
-            value = xp.asarray(other)[..., xp.newaxis, xp.newaxis]
+        else:  # array: batch axes are aligned from the first axis (like operator parameters)
+            value = xp.asarray(other)
+            value = value.reshape(value.shape + (1,) * (max(self.ndim - value.ndim, 0) + 2))
         return value
 
     def __add__(self, other):
